@@ -104,6 +104,12 @@ theorem C18_builder (ops : List BuilderOp) (s : Slot) :
     builderRun (ops ++ [.pop]) = (builderRun ops).dropLast := by
   simp [builderRun, List.foldl_append, builderStep]
 
+/-- `pushDefaultLayers` puts the default layers on top of whatever the builder holds: every layer pushed before stays where it was,
+    below them — at any point of any sequence of builder calls. -/
+theorem C18_builder_default_layers_go_on_top (ops : List BuilderOp) (ds : List Slot) :
+    builderRun (ops ++ [.extend ds]) = builderRun ops ++ ds ∧ builderRun ops <+: builderRun (ops ++ [.extend ds]) := by
+  simp [builderRun, List.foldl_append, builderStep]
+
 /-! #### Default helpers (table regenerated from the current source on every run) -/
 
 def coreSpec : List Slot := [.single 1, .single 2, .single 3, .single 4, .single 5]
@@ -127,6 +133,13 @@ theorem C18_default_helpers :
     (Gen.defaultLayers.map (·.1) = allFlags4 ∧ ∀ e ∈ Gen.defaultLayers, e.2 = some (defaultSpec e.1)) ∧
     (Gen.defaultStack.length = 32 ∧ (Gen.defaultStack.map (·.1)).Nodup ∧
       ∀ e ∈ Gen.defaultStack, e.2 = some (defaultSpec e.1.2)) := by
+  decide +kernel
+
+/-- `pushDefaultLayers()` of the current source, probed on builders that already hold layers (none, one, two, a parallel group, the default
+    layers themselves, the default layers and one more): it is the model's `extend (defaultSpec all)` — what was there stays below. -/
+theorem C18_source_pushDefaultLayers_extends :
+    Gen.pushDefaultProbe.length = 7 ∧
+    ∀ e ∈ Gen.pushDefaultProbe, e.2 = some (builderStep e.1 (.extend (defaultSpec (true, true, true, true)))) := by
   decide +kernel
 
 /- Non-vacuity -/
